@@ -168,3 +168,141 @@ Theorem C10_compiled_program_returns :
 Proof. exact Verif.Properties.C01.C01_exec_total_terminating. Qed.
 Print Assumptions C10_compiled_program_returns.
 Check Verif.Properties.C01.C01_exec_total_terminating.
+(* ---------------- the pattern parser (Model/Parser.v, tied to syntax.Parse by leg c10-parse on every run) ---------------- *)
+From Verif Require Import Base.Prelude Model.ParseLit Model.GroupMap Model.CharClass Model.Parser
+  Proofs.ParserMain Proofs.ParserPre Proofs.ParserProofs.
+
+(* THE PARSER MODEL IS TOTAL.  Model/Parser.v follows syntax.Parse: countCaptures + assignNameSlots, scanRegex with
+   scanGroupOpen (plain, named, numbered and balancing groups, lookaround, atomic groups, inline options, comments,
+   both conditionals, the RE2 spellings), scanCharSet, scanBackslash (anchors, shorthands, \p, back-references,
+   escapes), the quantifiers, and the mandatory reducers of tree.go (reduce, reduceAlternation, reduceConcatenation,
+   reduceRep, reduceSet, reduceAtomic, reduceLookaround, reduceGroup, both conditionals, makeQuantifier).
+   For EVERY pattern - any list of non-negative runes, any length -, every option word, either value of
+   MaintainCaptureOrder and every oracle, it answers Ok (an error code, a tree, or "outside the fragment"): never Crash
+   (index out of range on the pattern or on a Children / Str slice, pop of an empty group or option stack, nil
+   CharSet, a capture-table slot out of range) and never Fuel; the fuel is the pattern's length + 1, written in the
+   model (count_captures, scan_regex).  This is the no-panic / no-hang statement for the modelled parser. *)
+Theorem C10_parser_total :
+  forall (is_word_char : Z -> bool) (to_lower simple_fold : Z -> Z) (participates : Z -> bool)
+         (cat_in : Z -> Z -> bool) (cat_name : list Z -> Z) (o : Z) (mco : bool) (p : list Z),
+    forallb (fun c => 0 <=? c) p = true ->
+    exists r, parse is_word_char to_lower simple_fold participates cat_in cat_name o mco p = Ok r.
+Proof. exact parser_total. Qed.
+Print Assumptions C10_parser_total.
+
+(* the scan position only moves right, main pass: a round of scanRegex that goes on hands a strictly shorter rest of
+   the pattern to the next round, keeps the state invariant (every node handed to a reducer has the children / string
+   / set the reducer indexes; the option stack is as deep as the group stack) and leaves no pending unit *)
+Theorem C10_parser_round_moves_right :
+  forall (is_word_char : Z -> bool) (to_lower simple_fold : Z -> Z) (participates : Z -> bool)
+         (cat_in : Z -> Z -> bool) (cat_name : list Z -> Z) (tb : captab) (mco : bool) (st : mst) (p : list Z) (wasq : bool),
+    minv st -> ms_unit st = None -> p <> [] ->
+    match scan_round is_word_char to_lower simple_fold participates cat_in cat_name tb mco st p wasq with
+    | POk (st', Some (q, _)) => minv st' /\ ms_unit st' = None /\ (length q < length p)%nat
+    | POk (st', None) => minv st'
+    | PE _ _ | PO => True
+    | PC _ | PF => False
+    end.
+Proof. exact parser_round_moves_right. Qed.
+Print Assumptions C10_parser_round_moves_right.
+
+(* the same for the capture pre-scan, whose scanners' errors are ignored: it goes on from wherever the failed scanner
+   stood, and that is still to the right; the capture tables stay well formed *)
+Theorem C10_parser_prescan_moves_right :
+  forall (is_word_char : Z -> bool) (to_lower simple_fold : Z -> Z) (participates : Z -> bool)
+         (cat_in : Z -> Z -> bool) (cat_name : list Z -> Z) (mco : bool) (st : cst) (ch : Z) (p1 : list Z),
+    cinv mco (cs_c st) ->
+    match prescan_step is_word_char to_lower simple_fold cat_in cat_name mco st ch p1 with
+    | POk (st', q) => cinv mco (cs_c st') /\ (length q < length (ch :: p1))%nat
+    | PE _ _ | PO => True
+    | PC _ | PF => False
+    end.
+Proof. exact parser_prescan_step_moves_right. Qed.
+Print Assumptions C10_parser_prescan_moves_right.
+
+(* both loops with the fuel as a parameter: anything above the length of what is left is enough *)
+Theorem C10_parser_main_loop_fuel :
+  forall (is_word_char : Z -> bool) (to_lower simple_fold : Z -> Z) (participates : Z -> bool)
+         (cat_in : Z -> Z -> bool) (cat_name : list Z -> Z) (tb : captab) (mco : bool) (fuel : nat) (st : mst) (p : list Z) (wasq : bool),
+    minv st -> ms_unit st = None -> (length p < fuel)%nat ->
+    match scan_loop_full is_word_char to_lower simple_fold participates cat_in cat_name fuel tb mco st p wasq with
+    | POk st' => minv st'
+    | PE _ _ | PO => True
+    | PC _ | PF => False
+    end.
+Proof. exact parser_main_fuel. Qed.
+Print Assumptions C10_parser_main_loop_fuel.
+
+(* right-to-left inside lookbehind: scanGroupOpen on "(?<=" / "(?<!" returns a lookaround node that carries the
+   RightToLeft bit and leaves the parser's current options - under which the group's alternation, its concatenation
+   and every node of the body are created - with the bit set; "(?=" / "(?!" clear it ... *)
+Theorem C10_parser_lookbehind_opens_right_to_left :
+  forall (is_word_char : Z -> bool) (tb : captab) (mco : bool) (gt : Z) (v : gvars) (c : Z) (p : list Z),
+    c = 61 \/ c = 33 ->
+    group_open is_word_char tb mco gt v (63 :: 60 :: c :: p) =
+      POk (Some (mk_node (if c =? 61 then T_PosLook else T_NegLook) (set_rtl (gv_o v))),
+           mkGV (set_rtl (gv_o v)) false (gv_autocap v), p)
+    /\ useRTL (set_rtl (gv_o v)) = true.
+Proof. exact lookbehind_opens_right_to_left. Qed.
+Print Assumptions C10_parser_lookbehind_opens_right_to_left.
+
+Theorem C10_parser_lookahead_opens_left_to_right :
+  forall (is_word_char : Z -> bool) (tb : captab) (mco : bool) (gt : Z) (v : gvars) (c : Z) (p : list Z),
+    c = 61 \/ c = 33 ->
+    group_open is_word_char tb mco gt v (63 :: c :: p) =
+      POk (Some (mk_node (if c =? 61 then T_PosLook else T_NegLook) (clear_rtl (gv_o v))),
+           mkGV (clear_rtl (gv_o v)) false (gv_autocap v), p)
+    /\ useRTL (clear_rtl (gv_o v)) = false.
+Proof. exact lookahead_opens_left_to_right. Qed.
+Print Assumptions C10_parser_lookahead_opens_left_to_right.
+
+(* ... and nothing else can change it: an inline option string "(?imnsxu-imnsxu" never touches the RightToLeft,
+   ECMAScript or RE2 bits.  (That the whole BODY of a lookbehind then carries the bit is a statement about every node
+   the reducers move; it is checked per tree by leg c10-parse - driver check dir_okb - not proved: _partial.) *)
+Theorem C10_parser_inline_options_keep_direction_partial :
+  forall (o : Z) (p : list Z) (o' : Z) (q : list Z),
+    scan_options_text o p = (o', q) ->
+    useRTL o' = useRTL o /\ useE o' = useE o /\ useRE2 o' = useRE2 o.
+Proof. exact inline_options_keep_top_bits. Qed.
+Print Assumptions C10_parser_inline_options_keep_direction_partial.
+
+(* ---- witnesses (ASCII oracles) ---- *)
+Definition c10_word (c : Z) : bool := ((48 <=? c) && (c <=? 57)) || ((65 <=? c) && (c <=? 90)) || ((97 <=? c) && (c <=? 122)) || (c =? 95).
+Definition c10_lower (c : Z) : Z := if (65 <=? c) && (c <=? 90) then c + 32 else c.
+Definition c10_fold (c : Z) : Z := if (65 <=? c) && (c <=? 90) then c + 32 else if (97 <=? c) && (c <=? 122) then c - 32 else c.
+Definition c10_parse (o : Z) (p : list Z) : res presult :=
+  parse c10_word c10_lower c10_fold (fun _ => true) (fun _ _ => false) (fun _ => -1) o false p.
+
+(* "(a|bc)*d" : Capture(0){Concatenate{Loop{Capture(1){Alternate{One a, Multi bc}}}, One d}} *)
+Example C10_parser_witness_tree :
+  c10_parse 0 [40; 97; 124; 98; 99; 41; 42; 100] =
+  Ok (PR_Tree (RN 28 0 0 0 (-1) [] None
+                [RN 25 0 0 0 0 [] None
+                   [RN 26 0 0 0 2147483647 [] None
+                      [RN 28 0 0 1 (-1) [] None [RN 24 0 0 0 0 [] None [RN 9 0 97 0 0 [] None []; RN 12 0 0 0 0 [98; 99] None []]]];
+                    RN 9 0 100 0 0 [] None []]]) [0; 1] 2).
+Proof. vm_compute. reflexivity. Qed.
+
+(* "(" : ErrMissingParen; ")" : ErrUnexpectedParen; "a{3,2}" : ErrInvalidRepeatSize; "[z-a]" : ErrReversedCharRange;
+   "a**" : ErrInvalidRepeatOp; "(?<n>a)\k<m>" : ErrUndefinedNameRef; "\p{L}" with no known category names: ErrUnknownSlashP *)
+Example C10_parser_witness_errors :
+  c10_parse 0 [40] = Ok (PR_Err 34) /\ c10_parse 0 [41] = Ok (PR_Err 33) /\
+  c10_parse 0 [97; 123; 51; 44; 50; 125] = Ok (PR_Err 32) /\ c10_parse 0 [91; 122; 45; 97; 93] = Ok (PR_Err 55) /\
+  c10_parse 0 [97; 42; 42] = Ok (PR_Err 35) /\
+  c10_parse 0 [40; 63; 60; 110; 62; 97; 41; 92; 107; 60; 109; 62] = Ok (PR_Err 10) /\
+  c10_parse 0 [92; 112; 123; 76; 125] = Ok (PR_Err 50).
+Proof. vm_compute. repeat split; reflexivity. Qed.
+
+(* ECMAScript group names are outside the modelled fragment: "(?<n>a)" under ECMAScript *)
+Example C10_parser_witness_outside : c10_parse 256 [40; 63; 60; 110; 62; 97; 41] = Ok PR_Outside.
+Proof. vm_compute. reflexivity. Qed.
+
+(* "(?<=ab)" : the body of a lookbehind is built right to left (RightToLeft bit 64, children reversed: Multi "ab" stays one
+   node); "a{2}" of a surrogate: the literal repeat keeps the rune (fixed in ff89b8d; the old conversion gave U+FFFD) *)
+Example C10_parser_witness_lookbehind :
+  c10_parse 0 [40; 63; 60; 61; 97; 98; 41] =
+  Ok (PR_Tree (RN 28 0 0 0 (-1) [] None [RN 30 64 0 0 0 [] None [RN 12 64 0 0 0 [97; 98] None []]]) [0] 1).
+Proof. vm_compute. reflexivity. Qed.
+Example C10_parser_witness_surrogate_repeat :
+  repeat_rune 55296 2 = [55296; 55296] /\ repeat_rune_old 55296 2 = [65533; 65533].
+Proof. vm_compute. split; reflexivity. Qed.
